@@ -108,6 +108,46 @@ def targeted_family():
     return pairs, out
 
 
+def shape_family():
+    """Within-word expressions with the same transition shape but different accepting sets in one
+    grammar (optional tail `P[Q]` against mandatory tail `R<D>` / `R(S|S')`), two or three such
+    words per grammar, in both orders.  bash.rs groups within-word automata by shape into one
+    shared function; whatever is specific to one automaton (its accepting states) must stay in the
+    per-automaton wrapper.  Every grammar comes with queries that have such a word before the
+    cursor (complete `P`, `PQ`, `R`, `RS`) and under the cursor.
+    -> list of (statements, probes, forced queries)"""
+    def lit(t):
+        return ('lit', t, None)
+
+    def opt_tail(p, qs):            # P[Q] / P[Q|Q']
+        tail = lit(qs[0]) if len(qs) == 1 else ('alt', [lit(q) for q in qs])
+        return ('sub', [lit(p), ('opt', tail)])
+
+    def nt_tail(r, name):           # R<D>
+        return ('sub', [lit(r), ('nt', name)])
+
+    def alt_tail(r, ss):            # R(S|S')
+        return ('sub', [lit(r), ('alt', [lit(x) for x in ss])])
+
+    out = []
+
+    def add(branches, defs, words):
+        # branches: list of (within-word expression, literal that follows it)
+        for order in (branches, list(reversed(branches))):
+            e = ('alt', [('seq', [w, lit(nxt)]) for w, nxt in order])
+            qs = [([w], '') for w in words] + [([], w) for w in words] + [([], '')]
+            out.append(([('call', 'cmd', e)] + defs, Probes(), qs))
+
+    d_def = [('def', 'D', None, lit('d'))]
+    add([(opt_tail('a', ['b']), 'x'), (nt_tail('c', 'D'), 'y')], d_def, ['a', 'ab', 'c', 'cd'])
+    add([(opt_tail('a', ['b', 'f']), 'x'), (alt_tail('c', ['d', 'e']), 'y')], [], ['a', 'ab', 'af', 'c', 'cd', 'ce'])
+    add([(opt_tail('a', ['b']), 'x'), (nt_tail('c', 'D'), 'y'), (opt_tail('g', ['h']), 'z')], d_def,
+        ['a', 'ab', 'c', 'cd', 'g', 'gh'])
+    add([(alt_tail('c', ['d', 'e']), 'y'), (opt_tail('a', ['b', 'f']), 'x'), (alt_tail('g', ['h', 'i']), 'z')], [],
+        ['a', 'af', 'c', 'ce', 'g', 'gi'])
+    return out
+
+
 class RGen:
     """Random grammars biased to stay inside C01's domain: per-text descriptions are consistent,
     within-word literal sets are prefix-free, probe outputs come from alphabets disjoint from the
